@@ -66,7 +66,9 @@ fn conc_cfg(rng: &mut Rng, timer_policies: bool) -> Cfg {
     let mut cfg = gen_cfg(rng, true);
     cfg.segment_size = 131_072;
     if timer_policies {
-        let sync = match rng.below(4) {
+        let sync = match rng.below(5) {
+            // no syncer thread at all: every append has to be synced (and woken) inline
+            4 => (0, 50_000, 50, 4096),
             0 => (5_000, 50_000, 1_000_000, usize::MAX / 2),
             1 => (5_000, 50_000, 50, 4096),
             2 => (20_000, 100_000, 1_000_000, 65_536),
